@@ -19,8 +19,28 @@ type scannerState struct {
 
 func (i *interpreter) readAll(fr *frame, r iface) (value, value) {
 	// fast paths for readers whose whole content is known
+	if no, ok := r.v.(*nativeObj); ok && no.kind == "bufreader" {
+		st := no.v.(*scannerState)
+		if !st.loaded {
+			st.loaded = true
+			data, err := i.readAll(fr, st.reader)
+			st.data, st.rest, st.err = data, data, err
+		}
+		rest := st.rest
+		st.rest = ""
+		return rest, nilErr()
+	}
 	if pv, ok := r.v.(*value); ok && pv != nil {
 		switch r.t.String() {
+		case "*strings.Reader":
+			// the whole remaining content is known: no buffers, no Read calls
+			st := (*pv).(structure)
+			p := i.path
+			all := st[0]
+			off := st[1]
+			rest := p.mkSubstr(all, off, p.mkSub(p.mkLen(all), off))
+			st[1] = p.mkLen(all)
+			return rest, nilErr()
 		case "*bytes.Buffer":
 			s := (*pv).(structure)
 			cur, _ := s[0].(*byteSlice)
